@@ -29,6 +29,19 @@ func (fr *frame) doCall(instr *ssa.Call, c *ssa.CallCommon, fnv Val, args []Val,
 		if e.wantSafety(fr) {
 			fr.oblig("safe/nil", []string{"C20"}, pos, e.lineText(pos), reach, not(eq(recv.S, "null")))
 		}
+		// specialised verification: the dynamic type is fixed
+		if ft.devirt != nil {
+			if ct, ok := ft.devirt[types.TypeString(c.Value.Type(), nil)]; ok {
+				ms := e.prog.MethodSets.MethodSet(ct)
+				if sel := ms.Lookup(c.Method.Pkg(), c.Method.Name()); sel != nil {
+					if f := e.prog.MethodValue(sel); f != nil {
+						ft.assume(reach, eq(sx("dyntype", recv.S), fmt.Sprint(e.u.typeID(ct))))
+						all := append([]Val{{T: recv}}, args...)
+						return fr.staticCall(instr, c, f, all, nil, st, reach, xedges, pos)
+					}
+				}
+			}
+		}
 		// interface method contract?
 		if fc := e.ifaceContract(c); fc != nil {
 			all := append([]Val{{T: recv}}, args...)
@@ -39,10 +52,12 @@ func (fr *frame) doCall(instr *ssa.Call, c *ssa.CallCommon, fnv Val, args []Val,
 			// external interface method (error.Error, io.Reader...)
 			return fr.externalCall(instr, nil, c.Method.FullName(), c.Signature(), append([]Val{{T: recv}}, args...), st, reach, pos)
 		}
-		// havoc by union of implementations' effects
+		// havoc by union of implementations' effects; the preconditions of
+		// every possible implementation must hold
 		ms := map[string]int{}
 		mayPanic := false
 		for _, f := range impls {
+			fr.checkPreOnly(f, c, append([]Val{{T: recv}}, args...), nil, st, reach, pos)
 			for h, l := range e.modSetLevels(f) {
 				if ms[h] < l {
 					ms[h] = l
@@ -79,6 +94,13 @@ func (fr *frame) doCall(instr *ssa.Call, c *ssa.CallCommon, fnv Val, args []Val,
 		for h := range msb {
 			ms[h] = modAny
 		}
+		for _, f := range e.addrTakenWithSig(c.Signature()) {
+			if len(f.FreeVars) == 0 {
+				fr.checkPreOnly(f, c, args, nil, st, reach, pos)
+			} else if fc := e.contractOf(f); fc != nil && len(fc.Requires) > 0 {
+				fr.oblig("pre", allProps(fc), pos, "dynamic call may reach closure "+fc.Name+" with preconditions", reach, "false")
+			}
+		}
 		ft.note("call of unknown function value in %s: effects of all address-taken functions of that signature", fr.fn)
 		return fr.havocCall(instr, c.Signature(), ms, mp, st, reach, xedges)
 	}
@@ -89,6 +111,13 @@ func (fr *frame) doCall(instr *ssa.Call, c *ssa.CallCommon, fnv Val, args []Val,
 			return fr.havocCall(instr, c.Signature(), e.modSetLevels(callee), e.mayPanic(callee), st, reach, xedges)
 		}
 	}
+	return fr.staticCall(instr, c, callee, args, bindings, st, reach, xedges, pos)
+}
+
+func (fr *frame) staticCall(instr *ssa.Call, c *ssa.CallCommon, callee *ssa.Function, args, bindings []Val, st *State, reach string, xedges *[]inEdge, pos token.Pos) string {
+	ft := fr.ft
+	e := ft.e
+	// wrappers/thunks synthesised by go/ssa (promoted methods): inline always
 	fc := e.contractOf(callee)
 	if fc != nil && !(fc.Inline && callee.Blocks != nil) {
 		return fr.applyContract(instr, callee, c, fc, args, bindings, st, reach, xedges, pos)
@@ -97,11 +126,13 @@ func (fr *frame) doCall(instr *ssa.Call, c *ssa.CallCommon, fnv Val, args []Val,
 		return fr.externalCall(instr, callee, e.extName(callee), c.Signature(), args, st, reach, pos)
 	}
 	// repository function without contract: inline
-	if fr.depth < maxInlineDepth && !ft.onStack(callee) && !e.noInline(callee) {
+	// closures of a function that is itself being verified are part of its body
+	ownClosure := callee.Parent() != nil && ft.onStack(callee.Parent())
+	if fr.depth < maxInlineDepth && !ft.onStack(callee) && (ownClosure || !e.noInline(callee)) {
 		return fr.inline(instr, callee, args, bindings, st, reach, xedges)
 	}
 	ft.havocked[callee.String()] = true
-	return fr.havocCall(instr, c.Signature(), e.modSetLevels(callee), e.mayPanic(callee), st, reach, xedges)
+	return fr.havocCall(instr, callee.Signature, e.modSetLevels(callee), e.mayPanic(callee), st, reach, xedges)
 }
 
 func (ft *FT) onStack(f *ssa.Function) bool {
@@ -616,4 +647,32 @@ func (fr *frame) appendCall(instr *ssa.Call, c *ssa.CallCommon, args []Val, st *
 	base := ite(and(eq(total, "0"), eq(sx("sbase", s.S), "null")), "null", r)
 	res := ft.define("appended", SSlice, sx("mk-slice", base, "0", total, ite(eq(base, "null"), "0", cp)))
 	fr.setResult(instr, Val{T: Term{res, SSlice}})
+}
+
+// checkPreOnly: generate the pre obligations of a possible callee without applying its contract.
+func (fr *frame) checkPreOnly(callee *ssa.Function, c *ssa.CallCommon, args, bindings []Val, st *State, reach string, pos token.Pos) {
+	e := fr.ft.e
+	fc := e.contractOf(callee)
+	if fc == nil || len(fc.Requires) == 0 {
+		return
+	}
+	env := e.calleeEnv(fr, fc, callee, c, args, bindings)
+	env.old = st
+	env.cur = st
+	for _, l := range fc.Lets {
+		if v, err := env.eval(l.E); err == nil {
+			env.vars[l.Label] = v
+		}
+	}
+	for _, r := range fc.Requires {
+		if r.E == nil {
+			continue
+		}
+		goal, err := env.evalBool(r.E)
+		if err != nil {
+			e.contractError(r, err)
+			continue
+		}
+		fr.oblig("pre", r.Props, pos, fmt.Sprintf("%s requires %s", shortFuncName(callee), r.name()), reach, goal)
+	}
 }
